@@ -101,11 +101,13 @@ def unpack_attrs(a):
     attr_ref = yaml.load(a[attr_coords], Loader=FullLoader)
     attrs_to_ignore = ['spacing', 'name', '_dummy_channel', '_image_scaling']
     for attr in dict_without(attr_ref, attrs_to_ignore):
-        if attr_ref[attr]:
+        if attr_ref[attr] is not False:
+            coords = attr_ref[attr]
+            shape = [len(c) for c in coords.values()]
             new_attrs[attr] = xr.DataArray(
-                a[attr],
-                coords=attr_ref[attr],
-                dims=list(attr_ref[attr].keys()))
+                np.reshape(a[attr], shape),
+                coords=coords,
+                dims=list(coords.keys()))
         elif attr in a:
             new_attrs[attr] = yaml.safe_load(a[attr])
         else:
